@@ -40,19 +40,21 @@ impl<N, E> DiGraph<N, E> {
     { unimplemented!() }
 }
 
-/// R9 target for `GRAPH.retain_edges(|frozen, edge| PREDICATE)`.
-/// petgraph `Graph::retain_edges`: "Keep all edges that return true from the visit closure, remove the others.
-/// visit is provided a proxy reference to the graph, so that the graph can be walked and associated data modified.
-/// The order edges are visited is not specified.  The edge indices of the removed edes [sic] are invalidated, but none other."
-/// Only EDGES are removed: the nodes and their weights stay.  WHICH edges are kept is not specified here (the property
-/// demands the same solver result for every priority order, so the worklist constructors owe C07 nothing but "a permutation
-/// of all nodes"; the predicate only shapes the order).  The predicate closure is therefore not under verification: its only
-/// possible failure is the index `frozen[edge]`, and petgraph calls it with existing edges only.
-#[verifier::external_body]
-pub fn verif_ff_retain_edges<N, E>(g: &mut DiGraph<N, E>)
-    ensures
-        final(g).node_count_spec() == old(g).node_count_spec(),
-{ unimplemented!() }
+impl<N, E> DiGraph<N, E> {
+    /// R9 target for `GRAPH.retain_edges(|frozen, edge| PREDICATE)` (receiver kept, the predicate closure is dropped).
+    /// petgraph `Graph::retain_edges`: "Keep all edges that return true from the visit closure, remove the others.
+    /// visit is provided a proxy reference to the graph, so that the graph can be walked and associated data modified.
+    /// The order edges are visited is not specified.  The edge indices of the removed edes [sic] are invalidated, but none other."
+    /// Only EDGES are removed: the nodes stay.  WHICH edges are kept is not specified here (the property demands the same
+    /// solver result for every priority order, so the worklist constructors owe C07 nothing but "a permutation of all
+    /// nodes"; the predicate only shapes the order).  The predicate closure is therefore NOT under verification: its only
+    /// possible failure is the index `frozen[edge]`, and petgraph calls it with existing edges only.
+    #[verifier::external_body]
+    pub fn ff_retain_edges(&mut self)
+        ensures
+            final(self).node_count_spec() == old(self).node_count_spec(),
+    { unimplemented!() }
+}
 
 /// `comps` is a partition of the node indices 0..n: every entry is a node, every node occurs at exactly one place.
 pub open spec fn ff_partition(comps: Seq<Vec<NodeIndex>>, n: nat) -> bool {
